@@ -605,7 +605,8 @@ func (r *vfC13Run) logLen() int {
 
 // ---------------------------------------------------------------- replay of a model behaviour
 
-const vfC13Settle = 1000 * time.Millisecond
+// how long the scheduler waits for an expected reaction of the real code (VF_SETTLE_MS)
+var vfC13Settle = 1000 * time.Millisecond
 
 // after this many hung executions the remaining cases are skipped (a hang costs a watchdog period)
 const vfC13MaxHangs = 6
@@ -976,6 +977,9 @@ func TestVfC13Replay(t *testing.T) {
 	defer out.Close()
 	w := bufio.NewWriterSize(out, 1<<20)
 	defer w.Flush()
+	if ms, _ := strconv.Atoi(os.Getenv("VF_SETTLE_MS")); ms > 0 {
+		vfC13Settle = time.Duration(ms) * time.Millisecond
+	}
 	par, _ := strconv.Atoi(os.Getenv("VF_PAR"))
 	if par <= 0 {
 		par = 4
